@@ -116,6 +116,17 @@ func runScenario(run *evid.Run, reg ociregistry.Interface, repo string, s *scena
 				_, werr := ww.Write(junk)
 				log("wrong.Write(20 bytes)", werr)
 				refused = werr
+				if werr != nil {
+					// a caller retrying the refused write on the same writer must be refused again:
+					// the offset is as wrong as before
+					_, werr2 := ww.Write(junk)
+					log("wrong.Write(20 bytes) [retry]", werr2)
+					run.Count("wrong_offset_write_retries", 1)
+					if werr2 == nil {
+						bad("wrong-offset-accepted-on-retry", fmt.Sprintf("data at offset %d with %d received was refused once and accepted when the same Write was retried on the same writer", s.WrongOff, written))
+						return
+					}
+				}
 				if werr == nil {
 					cerr := ww.Close()
 					log("wrong.Close()", cerr)
